@@ -8,6 +8,7 @@ from ..interp import BoundMethod, Cat, Closure, Hooks, Interp, Intrinsic, Obj, S
 from ..model import own_nodes
 from ..nf import Rat
 from . import solverkit, solvers
+from .autograd_kit import AutogradModel
 
 ADJ = "torchsde/_core/adjoint_sde.py"
 ADJOINT = "torchsde/_core/adjoint.py"
@@ -30,8 +31,10 @@ EXPLANATION = (
 )
 
 
-class AdjHooks(Hooks):
+class AdjHooks(AutogradModel, Hooks):
     def __init__(self, requires_grad):
+        self.ag_init()
+        self._in_helper = False
         self.rg = requires_grad
         self.calls = []          # dict(kind, outputs, inputs, go, kwargs, node, fi, result)
         self.state_calls = []
@@ -40,6 +43,9 @@ class AdjHooks(Hooks):
         self.y, self.adj_y = nf.sym("y"), nf.sym("adj_y")
 
     def tensor_attr(self, interp, recv, name, node, fi):
+        r = self.ag_tensor_attr(interp, recv, name, node, fi)
+        if r is not NotImplemented:
+            return r
         if name == "requires_grad":
             return False
         if name == "is_leaf":
@@ -56,6 +62,9 @@ class AdjHooks(Hooks):
         return NotImplemented
 
     def external_call(self, interp, dotted, args, kwargs, node, fi):
+        r = self.ag_external_call(interp, dotted, args, kwargs, node, fi)
+        if r is not NotImplemented:
+            return r
         if dotted == "torch.is_grad_enabled":
             return self.rg
         return NotImplemented
@@ -67,25 +76,29 @@ class AdjHooks(Hooks):
     def grad_mode_on(self):
         return self.rg or self.grad_depth > 0
 
-    def _autograd(self, kind, args, kwargs, node, fi):
+    def _autograd(self, interp, callee, kind, args, kwargs, node, fi):
+        """misc.vjp / misc.jvp: the call site is recorded, the helper's own body is evaluated on the autograd model."""
         outputs = kwargs.get("outputs", args[0] if args else None)
         inputs = kwargs.get("inputs", args[1] if len(args) > 1 else None)
         go = kwargs.get("grad_outputs" if kind == "vjp" else "grad_inputs")
         ins = list(inputs) if isinstance(inputs, (list, tuple)) else [inputs]
-        tag = "VJP" if kind == "vjp" else "JVP"
-        go_v = Rat.lift(go) if go is not None else Rat.const(1)
-        res = [nf.linear(tag, (Rat.lift(outputs).key(), Rat.lift(i).key()), go_v) for i in ins]
         no_graph = sorted({self.graphless[a] for o in (outputs if isinstance(outputs, (list, tuple)) else [outputs])
                            if isinstance(o, Rat) for a in nf.all_atoms(o) if a in self.graphless})
+        self._in_helper = True
+        try:
+            res = interp.call_function(callee.fi, list(args), dict(kwargs))
+        finally:
+            self._in_helper = False
+        flat = [r for r in (res if isinstance(res, (list, tuple)) else [res]) if isinstance(r, Rat)]
         self.calls.append(dict(kind=kind, outputs=outputs, inputs=ins, go=go, kwargs=dict(kwargs), node=node, fi=fi,
-                               result=res, no_graph=no_graph))
+                               result=flat, no_graph=no_graph))
         return res
 
     def on_call(self, interp, callee, args, kwargs, node, fi):
         if isinstance(callee, Closure) and callee.fi is not None and callee.fi.module.relpath.endswith("misc.py"):
             nm = callee.fi.name
-            if nm in ("vjp", "jvp"):
-                return self._autograd(nm, args, kwargs, node, fi)
+            if nm in ("vjp", "jvp") and not self._in_helper:
+                return self._autograd(interp, callee, nm, args, kwargs, node, fi)
             if nm == "flatten":
                 return Cat("flat", list(args[0]))
         if isinstance(callee, BoundMethod) and callee.fi.name == "get_state":
